@@ -175,10 +175,10 @@ pub fn check_rewrite(case: &RewriteCase, st: &mut Stats) -> Result<(), String> {
     let nspans = spanify(&mut d2.blocks, &case.spans);
     let decorating = matches!(case.cfg.deco, Deco::Plain) || case.cfg.decorate;
     let mut excl = 0;
-    let (h2, changed) = rewrite(&d2.to_html(), &case.choices, !decorating, &mut excl);
-    if excl > 0 {
-        st.exclude("KF-C13-dt-layout(whitespace directly inside <dt> under decorating configs)");
-    }
+    let (h2, changed) = rewrite(&d2.to_html(), &case.choices, true, &mut excl);
+    // (layout white space directly inside <dt> used to be withheld under decorating configurations - the
+    // former known finding KF-C13-dt-layout, gone since the fixes f149c50 and e00471e; it is always inserted now)
+    let _ = (excl, decorating);
     let w = case.width;
     st.sample(|| json!({"original": short(&h1, 300), "rewritten": short(&h2, 400), "width": w, "cfg": cfg_brief(&case.cfg)}));
     let a = render(&case.cfg, h1.as_bytes(), w);
